@@ -18,7 +18,7 @@ RULE = ('Random edit histories of 5-60 operations over a pool of 1-5 molecules: 
         'itself, Block.to_molecule output, a Block), make_edges_from_interaction_type, MergeAllMolecules, MergeChains. '
         'After each operation every molecule of the pool (also sources of earlier copies/subgraphs) is compared with '
         'its shadow. Non-trivial history = >= 2 merges into the same molecule separated by a node addition or removal. '
-        'distinct = distinct operation sequences. Also: the molecule's citation keys (copies, subgraphs, add_or_replace with citations, merges); add_or_replace_interaction on absent/removed atoms; residue number and charge group 0 or negative, empty chain.')
+        'distinct = distinct operation sequences. Also: the citation keys of the molecule (copies, subgraphs, add_or_replace with citations, merges); add_or_replace_interaction on absent/removed atoms; residue number and charge group 0 or negative, empty chain.')
 ASSUMPTIONS = ['node keys are integers (merge_molecule numbers newcomers from an integer offset)',
                '"last atom" of the receiver = atom with the highest key; when that is not also the last inserted atom '
                'either reading is accepted',
